@@ -26,6 +26,7 @@ type scene struct {
 	indexPattern string // point clouds: identity | permuted | shared | unreferenced (+permuted)
 	special      string // special-coordinate ingredients applied to the scene ("" = none)
 	originElems  []int  // indices of zero-extent elements placed exactly at the world origin
+	signedZero   bool   // zero coordinates / box extents carry random signs
 	// mixed / segments: per element, which source mesh + primitive it comes from is
 	// decided by the builder (build.go)
 }
@@ -424,6 +425,19 @@ func (sc *scene) applySpecial(r *rand.Rand) {
 			tags = append(tags, "unit-coordinates")
 		}
 	}
+	if r.Intn(2) == 0 {
+		// signed zeros in the element coordinates themselves
+		for i := range sc.elems {
+			for k := 0; k < sc.elems[i].nv(); k++ {
+				sc.elems[i].v[k] = signZeros(r, sc.elems[i].v[k])
+			}
+		}
+		for i := range sc.pos {
+			sc.pos[i] = signZeros(r, sc.pos[i])
+		}
+		sc.signedZero = true
+		tags = append(tags, "signed-zero-coordinates")
+	}
 	for i, e := range sc.elems {
 		if (e.kind == kPoint || e.kind == kBox) && e.v[0] == (v3{}) && (e.kind == kPoint || e.v[1] == (v3{})) {
 			sc.originElems = append(sc.originElems, i)
@@ -713,6 +727,11 @@ func vertexOf(r *rand.Rand, e elem) v3 {
 
 // queryPoint draws a query position; the class name goes into the evidence.
 func (sc *scene) queryPoint(r *rand.Rand) (v3, string) {
+	p, class := sc.queryPoint0(r)
+	return signZeros(r, p), class
+}
+
+func (sc *scene) queryPoint0(r *rand.Rand) (v3, string) {
 	e := sc.elems[r.Intn(len(sc.elems))]
 	diam := sc.diameter()
 	centre := sc.lo.add(sc.hi).mul(0.5)
@@ -786,4 +805,68 @@ func (sc *scene) queryPoint(r *rand.Rand) (v3, string) {
 	p := vertexOf(r, e)
 	p[r.Intn(3)] += float64(r.Intn(9)-4) * 0.25 * sc.S
 	return p, "axis-offset-from-vertex"
+}
+
+// direction draws a ray direction from origin o (weights: axis, generic, aimed at an
+// element, lattice diagonal). Signed zeros are ordinary values here: half of the
+// axis/diagonal directions are produced by flipping the opposite vector (scaling
+// by -1 turns its zero components into -0, as Up().Flip() does), half of the
+// aimed ones as (o-t)·(-1/|o-t|), which gives -0 wherever o and t share a
+// coordinate; occasionally a zero component is replaced by a denormal.
+func (sc *scene) direction(r *rand.Rand, o v3, w []int) (d v3, class string, aimDist float64) {
+	aimDist = -1
+	diam := sc.diameter()
+	flip := r.Intn(2) == 0
+	switch pick(r, w) {
+	case 0:
+		d[r.Intn(3)] = float64(1 - 2*r.Intn(2))
+		class = "axis"
+		if flip {
+			d = d.mul(-1)
+			class = "axis(flipped)"
+		}
+	case 1:
+		return randDir(r), "generic", aimDist
+	case 2:
+		t := pointOn(r, sc.elems[r.Intn(len(sc.elems))])
+		if t.dist(o) < 1e-6*diam {
+			return randDir(r), "generic", aimDist
+		}
+		aimDist = t.dist(o)
+		if flip {
+			return o.sub(t).mul(-1 / aimDist), "aimed(flipped)", aimDist
+		}
+		return t.sub(o).mul(1 / aimDist), "aimed", aimDist
+	default:
+		for d == (v3{}) {
+			d = v3{float64(r.Intn(3) - 1), float64(r.Intn(3) - 1), float64(r.Intn(3) - 1)}
+		}
+		class = "diagonal"
+		if flip {
+			d = d.mul(-1)
+			class = "diagonal(flipped)"
+		}
+		d = d.unit()
+	}
+	if r.Intn(8) == 0 {
+		for k := range d {
+			if d[k] == 0 && r.Intn(2) == 0 {
+				d[k] = math.Copysign(float64(1+r.Intn(1000))*5e-324, float64(1-2*r.Intn(2)))
+				class += "+denormal"
+				break
+			}
+		}
+	}
+	return d, class, aimDist
+}
+
+// signZeros flips the sign of zero coordinates at random (-0 and +0 are the same
+// number; an implementation must not care).
+func signZeros(r *rand.Rand, p v3) v3 {
+	for k := range p {
+		if p[k] == 0 && r.Intn(3) == 0 {
+			p[k] = math.Copysign(0, -1)
+		}
+	}
+	return p
 }
